@@ -25,6 +25,34 @@ CLAIMED = {
    note="Across restarts the guarantee rests on the action store's refusal (C16.2) and the start-up proposal suppression; a custom Signer/ActionStore that misbehaves is out of scope.",
    technique="who-may-call, dominance and guard edge-dominance on SSA, value-shape identity of signature/target, post-dominance of the latch store, who-may-write",
  ),
+ "C04": dict(
+   category="other",
+   text="Decides the single-owner, forward-by-one structure of the mirror position: who may assign heights/rounds of the kernel views and with which values (shift: committing := voting, heights = voting height + 1; swap: exchange, next round = voting round + 1), FindView's equality guards and the untouched-state answer to stale lookups, the two writers of the persisted position and their argument order, save-header-before-position on the commit path (no recorded gap), replay only at the voting height, and whether acceptance compares the predecessor hash (known finding D12).",
+   design_ref="DESIGN.md §4 C04",
+   note="Does not decide store durability/immutability of the in-memory header store (overwrites by design) nor restart behaviour (C10).",
+   technique="who-may-write with address paths, value-shape equality of assigned positions, guard edge-dominance, dominance on the commit path",
+ ),
+ "C05": dict(
+   category="other",
+   text="Every route from a network vote message to kernel state (the four mirror handlers, found by the request type they send) passes on every CFG path: validator-set hash equality with the looked-up view, proofs over that view's keys and the handler's own vote kind, AllValidSignatures (direct, via Combine, or and-accumulated) gating the kernel request and every accepted return, length-checked key ids, verify-before-set; kernel side: only the add-vote functions/replay write proof maps, each kind into its own maps with its own recomputation and persistence; prevote/precommit siblings reference no symbol of the other kind.",
+   design_ref="DESIGN.md §4 C05",
+   note="Does not decide which votes reach views for particular interleavings; cryptography trusted.",
+   technique="guard edge-dominance incl. accumulated-flag recognition, value provenance of call arguments, who-may-write, sibling summary comparison",
+ ),
+ "C06": dict(
+   category="other",
+   text="Decides the shape of the vote summary computation (per-target sum over set bits with index bound; total counted once per validator via first-seen gate; arg-max with min-hash tie-break), recompute-after-mutation on every path in the kernel (flag-sensitive path walk), threshold coherence (power and available power from one summary, block power indexed by the same kind's most-voted hash) and available-power provenance.",
+   design_ref="DESIGN.md §4 C06",
+   note="Numeric equality for all inputs and uint64 overflow are not decided.",
+   technique="loop-structure and guard analysis on SSA, flag-sensitive all-paths post-dominance, value-shape coherence of comparison operands",
+ ),
+ "C07": dict(
+   category="other",
+   text="Decides validator-set provenance: kernel views get their set only from the committed header's NextValidatorSet (shift argument checked at the call site), the swap, or start-up sources (genesis / stored header's NextValidatorSet); available power follows the same set; state machine sets rotate only in CycleFinalization with the documented flow, the finalized set comes only from the driver's response, proposals reach the strategy only through the comparing filter and the node's own proposal carries the same sets. The missing list-vs-hash comparison on proposal acceptance is a recorded known finding (D10).",
+   design_ref="DESIGN.md §4 C07",
+   note="Application behaviour and arrival order of same-signature copies are not decided.",
+   technique="who-may-write with value provenance, guard edge-dominance, value-shape wiring",
+ ),
  "C13": dict(
    category="other",
    text="Decides the code-shape conditions the merge laws rest on, for both shipped schemes: verify-before-set at every signature/bit write (and that no other function writes those fields), bounded fixed-width reads of key ids and encoded keys, clone independence field by field, clearing of AllValidSignatures on every rejecting edge, flag tests in the commit-proof finalizer. The algebraic laws themselves (union, idempotence, round trip) quantify over values and are not decided.",
